@@ -84,6 +84,22 @@ Proof.
 Qed.
 Print Assumptions C05_expiry.
 
+(* UNSUBSCRIBE removes exactly the subscription to that topic from the session's state (and with it from what
+   survives a connection end, a shutdown, a restart): nothing published on the topic afterwards is handed or queued
+   to the session; its other subscriptions, its queue and every other session stay as they are *)
+Theorem C05_unsubscribe : forall s id t c,
+  s_conn (get id (sess s)) = Some c ->
+  let r := get id (sess s) in
+  let s' := fst (step s (EUnsubscribe id t)) in
+  let r' := get id (sess s') in
+  s_subs r' = filter (fun k => negb (N.eqb (sub_topic k) t)) (s_subs r) /\
+  s_conn r' = s_conn r /\ s_queue r' = s_queue r /\ s_durable r' = s_durable r /\ s_expiry r' = s_expiry r /\
+  s_will r' = s_will r /\ s_present r' = s_present r /\
+  (forall j, j <> id -> get j (sess s') = get j (sess s)) /\
+  (forall self tag, pub_out self tag t r' = [] /\ pub_rec self tag t r' = r').
+Proof. intros s id t c Hc. exact (unsubscribe_state s id t c Hc). Qed.
+Print Assumptions C05_unsubscribe.
+
 Example C05_nonvacuous :
   let h := [EConnect 1%N 7%N true false (Some 2000) None; ESubscribe 7%N 6%N; EDisconnect 7%N false None;
             EPublish 40%N 3%N; ETick 1000; EConnect 2%N 7%N true false (Some 0) None; EDrop 7%N; EPublish 41%N 3%N;
